@@ -171,6 +171,18 @@ def check_lock_discipline(run, fx, cg):
         roots = set()
         for c in region_calls:
             roots |= cg.resolve(c)
+        # closures created while the guard is live (and handed to map_err / unwrap_or_else / ... ) run under the lock
+        if lock_calls:
+            live_blocks = set()
+            for lc in lock_calls:
+                if lc.t.get("t") is not None:
+                    live_blocks |= body.reachable(lc.t["t"])
+            for bi, blk in enumerate(f.mir["blocks"]):
+                if bi not in live_blocks:
+                    continue
+                for st in blk["s"]:
+                    if st[0] == "=" and st[2][0] == "agg" and isinstance(st[2][1], dict) and "closure" in st[2][1]:
+                        roots.add(st[2][1]["closure"])
         clo = cg.closure(roots)
         re = sorted(p for p in clo if p in lockfns)
         chain = None
